@@ -82,7 +82,18 @@ func cp(s []int) []int { return append([]int{}, s...) }
 func applyS(hs map[int]*sortints.SortedInts, a SAct) (r SRes, xsAfter []int, res string) {
 	r = SRes{Kind: "none", S: []int{}}
 	xs := cp(a.Xs)
-	set := func(s sortints.SortedInts) { r = SRes{Kind: "set", S: cp(s)} }
+	// A function result is recorded and then scribbled over in place before any handle is observed:
+	// the documentation promises a NEW value, so writing to it must not show through in an argument.
+	set := func(s sortints.SortedInts) {
+		r = SRes{Kind: "set", S: cp(s)}
+		for i := range s {
+			s[i] = -987654321
+		}
+		s = s[:cap(s)]
+		for i := range s {
+			s[i] = -987654321
+		}
+	}
 	res = obs.Safe(func() {
 		switch a.Op {
 		case "New":
